@@ -85,7 +85,12 @@ def generate(prop, seed, tier):
         # index type T = factor x factor, factor = atom(n) | sum(m1, m2)
         facs = []
         tot = 1
-        for _ in range(g.randrange(1, 3)):
+        if g.random() < 0.3:
+            # equal factors: lets a's columns be a rotation of its rows (the solution's pattern then grows over several steps)
+            f = g.choice([['atom', 2], ['sum', 1, 1]])
+            facs = [list(f) for _ in range(g.choice([2, 3]))]
+            tot = 2 ** len(facs)
+        for _ in range(g.randrange(1, 3) if not facs else 0):
             if g.random() < 0.5:
                 f = ['atom', g.randrange(1, 4)]
                 sz = f[1]
@@ -99,7 +104,8 @@ def generate(prop, seed, tier):
             facs = [['atom', 2]]
         case['T'] = facs
         case['pat'] = {'a_row': [g.randrange(4) for _ in facs], 'a_col': [g.randrange(4) for _ in facs], 'b_row': [g.randrange(4) for _ in facs],
-                       'a_diag': g.random() < 0.25, 'b_extra': g.choice([0, 0, 1, 2]), 'a_expand': g.random() < 0.2}
+                       'a_diag': g.random() < 0.25, 'b_extra': g.choice([0, 0, 1, 2]), 'a_expand': g.random() < 0.2,
+                       'a_rot': g.randrange(0, 3)}
         case['vals'] = g.randrange(1 << 30)
     else:
         nk = g.randrange(1, 5)
@@ -320,7 +326,15 @@ def execute(case):
                 T, pat = case['T'], case['pat']
                 r = Stream(case['vals'], 'vals')
                 row, prow = pattern_axes(IX, T, pat['a_row'])
-                if pat['a_diag'] and pat['a_row'] == pat['a_col']:
+                same_fac = len(T) >= 2 and all(f == T[0] for f in T) and T[0] in (['atom', 2], ['sum', 1, 1])
+                if same_fac and pat.get('a_rot'):
+                    # rows X*Y*Z dense per factor, columns the same physical axes rotated: a weighted "rotation" operator
+                    ks = [IX.PhysicalAxis(2) for _ in T]
+                    row, prow = IX.productAxis(ks), list(ks)
+                    r_ = pat['a_rot'] % len(ks)
+                    col, pcol = IX.productAxis(ks[r_:] + ks[:r_]) if r_ else IX.productAxis(ks[::-1]), []
+                    c.inc('probe.patterned.rotation-a')
+                elif pat['a_diag'] and pat['a_row'] == pat['a_col']:
                     col, pcol = row, []
                     c.inc('probe.patterned.diagonal-a')
                 else:
